@@ -23,6 +23,17 @@ pub fn gen(o: &Opts, sink: &mut dyn FnMut(Vec<i64>, String)) {
             }
         }
     }
+    // 1b. EVERY type code (the five command types included, with a payload size they do not accept): a 4-byte frame of that
+    // type followed by a resume-all, the stream cut right after the header / inside the payload / at the frame boundary, a
+    // signal published between the writes: whatever a type means, its payload is consumed as a whole and once
+    for t in 0..=255u32 {
+        for cut in [10i64, 12, 14] {
+            k += 1;
+            if !mine(o, k) { continue; }
+            let frames: Vec<F> = vec![(t as u8, vec![0x4c, 0x58, 0x52, 3]), (0x20, vec![0])];
+            sink(script_case(false, &frames, None, &[cut, 25 - cut], &[0, 1], 0), String::new());
+        }
+    }
     // 2. random frame lists, random segmentation, signals between writes
     let n = if o.tier_thorough { 120_000 } else { 12_000 };
     for j in 0..n {
